@@ -628,7 +628,7 @@ M('size-D19-shape-uppercase-x', ['C17'], UT, "                        if aspect 
 M('seed6-C18-stop-clears-flag', ['C18'], LN, "        \"\"\"Stop the heartbeat thread.\"\"\"\n        self._stop_event.set()\n", "        \"\"\"Stop the heartbeat thread.\"\"\"\n        self._stop_event.set()\n        thread, self._thread = self._thread, None\n        if thread is not None and thread is not threading.current_thread():\n            thread.join(timeout=1.0)\n        self._stop_event.clear()\n", ['C18.R4'])
 M('fini-D20-shape', ['C18'], F, "        if hasattr(self, 'emitter') and self.emitter is not None:\n            self.emitter.stop_lineage_heart_beat()\n            self.emitter.emit_stop()\n        self.mq.destroy()", "        if hasattr(self, 'emitter') and self.emitter is not None:\n            self.emitter.emit_stop()\n        self.mq.destroy()", ['C18.R4'])
 M('facets-D21-shape-normalise-before-flatten', ['C18'], LN, "    data = flatten_dict(data)\n    data = normalize_facet_keys(data)", "    data = normalize_facet_keys(data)\n    data = flatten_dict(data)", ['C18.R6'])
-M('facets-D21-shape-no-keyword-fallback', ['C18'], LN, "        if not k.isidentifier() or iskeyword(k) or k in (\"schemaURL\", \"type\"):\n            k = f\"f_{k}\"\n", "", ['C18.R6'])
+M('facets-D21-shape-no-keyword-fallback', ['C18'], LN, '        if not k.isidentifier() or iskeyword(k) or k in ("schemaURL", "type") or hasattr(BaseFacet, k):  # what the facet\'s base class defines itself (\'skip_redact\' is a read-only property) can not be a field either\n            k = f"f_{k}"\n', "", ['C18.R6'])
 M('facets-key-not-str', ['C18'], LN, '''        k = re.sub(r"[^0-9A-Za-z_]", "_", str(k)).lstrip("_")''', '''        k = re.sub(r"[^0-9A-Za-z_]", "_", k).lstrip("_")''', ['C18.R6'])
 M('facets-D48-shape-lstrip-before-sub', ['C18'], LN, '''        k = re.sub(r"[^0-9A-Za-z_]", "_", str(k)).lstrip("_")''', '''        k = re.sub(r"[^0-9A-Za-z_]", "_", str(k).lstrip("_"))''', ['C18.R6'])
 M('runid-D47-shape-drawn-once-at-construction', ['C18'], LN, '''            self.run_id = self.get_run_id()  # one id per run: the emitter object is made once at import, it is shared by the filters of a forked pipeline and by a second run in the same process\n''', '', ['C18.R3'])
@@ -645,7 +645,7 @@ M('required-D28-shape', ['C03', 'C06'], Z, "client_ids = set(str(client.client_i
 M('cli-D30-shape-empty-value-dropped', ['C12'], CLI, "            return param, True  # '--param=' is a '--param' without a value\n", "            return None, None\n", ['C12.R8'])
 M('cli-D31-shape-ipc-unchecked', ['C12'], CLI, "                    while new_source in ipc_outputs:  # some filter already binds a pipe of this name\n                        new_source += \"_\"\n", "", ['C12.R9'])
 M('cli-ipc-user-outputs-not-recorded', ['C12'], CLI, "            elif output.startswith(\"ipc://\"):\n                ipc_outputs.add(only_mq_addr(output))\n", "", ['C12.R9'])
-M('seek-D32-shape-end-past-list', ['C13', 'C14'], RL, "                        read_file.seek(0, 2)\n\n                        self.read_idx -= 1\n", "                        read_file.seek(0, 2)\n", ['C13.R10', 'C14.R10'])
+M('seek-D32-shape-end-past-list', ['C13', 'C14'], RL, "                        to_end()\n\n                        self.read_idx -= 1\n", "                        to_end()\n", ['C13.R10', 'C14.R10'])
 M('init-D32-shape-default-past-list', ['C13'], RL, "        self.seek(('end', 0))\n\n        if head is not None:", "        self.read_idx = len(self.logfiles)\n\n        if head is not None:", ['C13.R10'])
 M('read-D33-shape-no-reread', ['C13', 'C14'], RL, "                        if self.read_file is not None:  # the writer may have completed this file between our empty read and the rescan, do not leave it unread\n                            data = take()\n\n                            if data:\n                                break\n\n", "", ['C13.R4', 'C14.R10'])
 M('allowlist-D34-shape-scalar', ['C16'], CF, "                names = config.get(\"safe_metrics\") or []  # 'safe_metrics:' with nothing under it is an empty list: the file still takes precedence over the environment\n                if isinstance(names, str):  # a scalar instead of a list: one entry (or a comma list), not a set of its characters\n                    names = names.split(\",\")\n                return set(str(name).strip() for name in names if str(name).strip())", "                return set(config.get(\"safe_metrics\", []))", ['C16.R6'])
@@ -670,7 +670,7 @@ M('cli-D42-shape-numeric-id-kept', ['C12'], CLI, "            if isinstance(valu
 M('seed7-C12-always-localhost', ['C12'], CLI, '''            addr, port = (output[6:].rsplit(":", 1) + ["5550"])[:2]\n            output = f'tcp://{"localhost" if addr in ("*", "0", "0.0.0.0") else addr}:{port}\'''', '''            port = (output[6:].rsplit(":", 1) + ["5550"])[:2][1]\n            output = f"tcp://localhost:{port}"''', ['C12.R7'])
 
 M('refresh-D43-shape-zero-sentinel', ['C13'], RL, "            old_timestamp, old_path, old_size = -1, 0, 0  # nothing seen yet: below every timestamp a file can have, 0 is one of them", "            old_timestamp = old_path = old_size = 0", ['C13.R11'])
-M('seed7-C13-seek-end-listed-size', ['C13', 'C14'], RL, "                        read_file.seek(0, 2)\n\n                        self.read_idx -= 1", "                        read_file.seek(logfiles[-1].size)\n\n                        self.read_idx -= 1", ['C13.R10', 'C14.R10'])
+M('seed7-C13-seek-end-listed-size', ['C13', 'C14'], RL, "                        to_end()\n\n                        self.read_idx -= 1", "                        read_file.seek(logfiles[-1].size)\n\n                        self.read_idx -= 1", ['C13.R10', 'C14.R10'])
 
 M('size-D44-shape-zero-accepted-util', ['C17'], UT, "                        if not xform.width or not xform.height:  # OpenCV refuses an empty size for every image\n                            raise ValueError(f'invalid size {args!r}, width and height must be at least 1')\n", "", ['C17.R6'])
 M('size-D44-shape-zero-accepted-video', ['C17'], VI, "    if not int(m.group(1)) or not int(m.group(3)):  # OpenCV refuses an empty size for every image\n        raise ValueError(f'invalid size {s!r}, width and height must be at least 1')\n", "", ['C17.R6'])
@@ -746,7 +746,7 @@ M('run-D71-shape-policy-lookup-after-ctor', ['C18'], F, "            filter = cl
 M('sweep-lineage-histogram-test-negated', ['C16'], LN, "            if k.endswith('_buckets') or k.endswith('_counts'):", "            if not (k.endswith('_buckets') or k.endswith('_counts')):", ['C16.R7'])
 M('sweep-lineage-histogram-test-and', ['C16'], LN, "            if k.endswith('_buckets') or k.endswith('_counts'):", "            if k.endswith('_buckets') and k.endswith('_counts'):", ['C16.R7'])
 M('sweep-lineage-histogram-elements-negated', ['C16'], LN, "[float(x) if isinstance(x, (int, float)) else str(x) for x in v]", "[float(x) if not isinstance(x, (int, float)) else str(x) for x in v]", ['C16.R7'])
-M('sweep-lineage-reserved-names-not-in', ['C18'], LN, 'iskeyword(k) or k in ("schemaURL", "type"):', 'iskeyword(k) or k not in ("schemaURL", "type"):', ['C18.R6'])
+M('sweep-lineage-reserved-names-not-in', ['C18'], LN, 'iskeyword(k) or k in ("schemaURL", "type") or', 'iskeyword(k) or k not in ("schemaURL", "type") or', ['C18.R6'])
 M('sweep-cli-dup-test-inverted', ['C12'], CLI, "        if config.id in config_by_id:\n            raise ValueError(f\"duplicate id", "        if config.id not in config_by_id:\n            raise ValueError(f\"duplicate id", ['C12.R13'])
 M('sweep-cli-rewrite-for-addresses', ['C12'], CLI, "            if is_mq_addr(\n                source\n            ):  # already pointing to real address", "            if not is_mq_addr(\n                source\n            ):  # already pointing to real address", ['C12.R13'])
 M('sweep-cli-self-source-allowed', ['C12'], CLI, "            if id == config.id:\n", "            if id != config.id:\n", ['C12.R13'])
@@ -794,3 +794,10 @@ M('sweep-util-chain-result-not-stored', ['C17'], UT, "        topic_xform.frame 
 
 M('mq-D86-shape-metrics-sender-not-polled', ['C08'], MQ, "        if self.metrics_sender is not None:  # a consumer of the dedicated metrics output is a neighbour as well\n            self.metrics_sender.poll()\n", "", ['C08.R11'])
 M('mq-D87-shape-partial-setup-left-bound', ['C08'], MQ, "        except BaseException:  # what could be set up does not stay bound when the rest can not: nobody else holds this object, the addresses would be taken until it is collected\n            self.destroy()\n\n            raise\n", "        except BaseException:\n            raise\n", ['C08.R12'])
+M('c18_base_class_names_not_reserved', ['C18'], LN, ' or k in ("schemaURL", "type") or hasattr(BaseFacet, k):', ' or k in ("schemaURL", "type"):', ['C18.R6'])
+M('c18_base_class_names_asked_of_wrong_class', ['C18'], LN, ' or hasattr(BaseFacet, k):', ' or hasattr(dict, k):', ['C18.R6'])
+M('d85-end-of-all-logs-is-the-physical-end', ['C13'], RL, "                        to_end()\n\n                        self.read_idx -= 1", "                        read_file.seek(0, 2)\n\n                        self.read_idx -= 1", ['C13.R16'])
+M('d85-end-of-one-file-is-the-physical-end', ['C13'], RL, "                            to_end()  # logfile.size MAY", "                            read_file.seek(0, 2)  # logfile.size MAY", ['C13.R16'])
+M('d85-boundary-search-gives-up-after-one-block', ['C13'], RL, "                    at = start\n\n                read_file.seek(at)", "                    break\n\n                read_file.seek(at)", ['C13.R16'])
+M('d88-business-meter-from-the-global-provider', ['C16'], CL, 'self.business_meter = self.provider.get_meter(f"{service_name}_business")', 'self.business_meter = get_meter(f"{service_name}_business")', ['C16.R12'])
+M('d88-system-meter-from-the-global-provider', ['C16'], CL, 'self.meter = self.provider.get_meter(service_name)', 'self.meter = get_meter(service_name)', ['C16.R12'])
